@@ -191,6 +191,17 @@ def analyse_trace(ctx, ev, expected_sections, what):
 # (and their environment) alive from one case to the next
 TRACE_PATH = tempfile.mktemp(prefix=f"c09_trace_{os.getpid()}_")
 os.environ["RESERVOIRPY_VERIF_TRACE"] = TRACE_PATH
+import atexit
+
+
+def _cleanup():
+    try:
+        os.remove(TRACE_PATH)
+    except OSError:
+        pass
+
+
+atexit.register(_cleanup)
 
 
 class Trace:
